@@ -132,6 +132,34 @@ func checkSDWASelect(c *core.Ctx, alus []aluDesc, prov *core.Prov) {
 										r = &role{fn: cal, roles: make([]string, len(cal.Params))}
 										helpers[cal] = r
 									}
+									// the select of source K is applied to source K
+									if fname == "Src0Sel" || fname == "Src1Sel" {
+										wantSrc := strings.TrimSuffix(fname, "Sel")
+										got := map[string]bool{}
+										for _, arg := range u.Call.Args {
+											if arg == ssa.Value(load) {
+												continue
+											}
+											dependsOn(arg, func(x ssa.Value) bool {
+												if in2, ok := x.(ssa.Instruction); ok {
+													if n, cc2 := stateMethod(in2); n == "ReadOperand" {
+														if f := operandFieldName(cc2.Args[0]); f == "Src0" || f == "Src1" {
+															got[f] = true
+														}
+													}
+												}
+												return false
+											}, map[ssa.Value]bool{})
+										}
+										if len(got) > 0 {
+											st.Instances++
+											okPair := got[wantSrc] && len(got) == 1
+											st.Ob(okPair)
+											if !okPair {
+												c.ReportAt("R03.20", fn, u.Pos(), "select-of-other-source:"+fname, fmt.Sprintf("%s selects the sub-dword of a value read from %v with inst.%s: the ISA selects SRC0 with src0_sel and SRC1 with src1_sel, so an SDWA instruction whose two selects differ takes the wrong field of one source", core.FuncName(fn), sortedKeys(got), fname))
+											}
+										}
+									}
 									off := len(cal.Params) - len(u.Call.Args)
 									for i, arg := range u.Call.Args {
 										if i+off < 0 || i+off >= len(r.roles) {
